@@ -2,7 +2,7 @@
     constructors when the first level (in storage order) at which it is out of range is dense;
     it is rejected when that level is compressed. *)
 From Coq Require Import ZArith List. Import ListNotations.
-From TV Require Import spec.Storage model.TensorBuild.
+From TV Require Import spec.Storage model.TensorBuild proofs.TensorBuildTop.
 Open Scope Z_scope.
 
 Lemma out_of_range_rejected_refuted :
@@ -28,3 +28,13 @@ Proof. eexists. repeat split; vm_compute; reflexivity. Qed.
 Lemma out_of_range_compressed_rejected :
   build (mkFormat [MCompressed] [0%nat]) [2] [([5], 1)] = Err EValue.
 Proof. vm_compute. reflexivity. Qed.
+
+(** the full statement of props/C09.v ([C09_out_of_range_rejected_full]) is false for [build] *)
+Lemma C09_out_of_range_rejected_refuted :
+  ~ (forall fmt dims es,
+       valid_formatb fmt = true -> dims_okb fmt dims = true ->
+       all_in_rangeb dims es = false -> exists err, build fmt dims es = Err err).
+Proof.
+  intros H. destruct (H (mkFormat [MDense] [0%nat]) [2] [([5], 1)] eq_refl eq_refl eq_refl) as [err E].
+  vm_compute in E. discriminate.
+Qed.
